@@ -428,7 +428,11 @@ func (w *crashWorld) run(p *simkit.Program) {
 			w.dropSnapshots()
 			w.verifyLive("after stores racing with lookups")
 			w.log.Add("storm %d stores", n)
-		case "realkill":
+		case "realkill", "syskill":
+			if st.Op == "syskill" && !straceOK() {
+				w.stats.Probe("strace-unavailable")
+				break
+			}
 			w.realKill(st)
 			if w.res.HarnessErr != "" || w.aborted {
 				return
@@ -648,7 +652,22 @@ func TestVerifCrashChild(t *testing.T) {
 	}
 	fmt.Fprintln(out, "END")
 	out.Flush()
+	if os.Getenv("VERIF_CHILD_EXIT") == "1" {
+		os.Exit(0) // no Close: the process just ends, like a kill after the last acknowledgement
+	}
 	select {} // wait for the kill
+}
+
+var straceState int // 0 unknown, 1 usable, 2 not
+
+func straceOK() bool {
+	if straceState == 0 {
+		straceState = 2
+		if out, err := exec.Command("strace", "-f", "-qq", "-o", "/dev/null", "-e", "trace=write", "true").CombinedOutput(); err == nil && len(out) == 0 {
+			straceState = 1
+		}
+	}
+	return straceState == 1
 }
 
 func (w *crashWorld) realKill(st simkit.Step) {
@@ -670,12 +689,28 @@ func (w *crashWorld) realKill(st simkit.Step) {
 	}
 	killAfter := int(st.B) % n
 	stopMode := st.C%2 == 0
+	sysMode := st.Op == "syskill"
+	if sysMode {
+		// the child runs under strace, which delivers SIGKILL when a thread of the child enters its
+		// N-th file-system call (open, write, truncate, sync, rename, unlink ...): a kill point at
+		// system-call granularity anywhere between the first call of Open and the last store
+		stopMode, killAfter = false, 0
+	}
 	if stopMode {
 		plan[killAfter].Stop = true
 	}
 	pj, _ := json.Marshal(plan)
 	cmd := exec.Command(os.Args[0], "-test.run", "^TestVerifCrashChild$", "-test.count", "1")
+	if sysMode {
+		calls := "openat,write,pwrite64,ftruncate,fsync,fdatasync,rename,renameat,unlink,unlinkat,mkdir,mkdirat,fallocate"
+		cmd = exec.Command("strace", "-f", "-qq", "-o", "/dev/null", "-e", "trace="+calls,
+			"-e", fmt.Sprintf("inject=%s:signal=SIGKILL:when=%d", calls, 1+st.B%500),
+			os.Args[0], "-test.run", "^TestVerifCrashChild$", "-test.count", "1")
+	}
 	cmd.Env = append(os.Environ(), "VERIF_CHILD_DIR="+dir, "VERIF_CHILD_PLAN="+string(pj), "VERIF_OUT=")
+	if sysMode {
+		cmd.Env = append(cmd.Env, "VERIF_CHILD_EXIT=1")
+	}
 	stdout, _ := cmd.StdoutPipe()
 	if err := cmd.Start(); err != nil {
 		w.res.HarnessErr = "child: " + err.Error()
@@ -688,7 +723,7 @@ func (w *crashWorld) realKill(st simkit.Step) {
 		line := sc.Text()
 		if len(line) > 4 && line[:4] == "ACK " {
 			acked, _ = strconv.Atoi(line[4:])
-			if acked >= killAfter {
+			if acked >= killAfter && !sysMode {
 				break
 			}
 		} else if len(line) >= 8 && line[:8] == "ERR open" {
@@ -712,6 +747,8 @@ func (w *crashWorld) realKill(st simkit.Step) {
 			time.Sleep(time.Millisecond)
 		}
 		w.stats.Fault("sigkill-after-acknowledgement")
+	} else if sysMode {
+		w.stats.Fault("sigkill-at-a-system-call")
 	} else {
 		w.stats.Fault("sigkill-during-stream")
 	}
@@ -732,7 +769,7 @@ func (w *crashWorld) realKill(st simkit.Step) {
 		return
 	}
 	w.kills++
-	if acked < killAfter {
+	if acked < killAfter && !sysMode {
 		w.res.HarnessErr = "child ended before the kill point"
 		return
 	}
@@ -878,7 +915,9 @@ func (crashHarness) Gen(seed uint64, prop, tier string) *simkit.Program {
 		if r.P(0.12) {
 			add("storm", int64(r.Intn(40)), int64(r.Intn(crashUniverse)), int64(r.Intn(24)), 0)
 		}
-		if r.P(0.35) {
+		if r.P(0.2) {
+			add("syskill", int64(r.Intn(1<<30)), int64(r.Pick(3, 2, 2, 1)*60+r.Intn(60)), 1, 0)
+		} else if r.P(0.35) {
 			add("realkill", int64(r.Intn(1<<30)), int64(r.Intn(8)), int64(r.Intn(4)), 0)
 		} else {
 			add("kill", int64(r.Intn(1<<30)), int64(3+r.Intn(5)), int64(r.Intn(8)), int64(r.Intn(3)))
